@@ -378,6 +378,10 @@ def settings(seed, tier):
     simple('HilbertAnalyzer', 'odd-length', lambda x: na.HilbertAnalyzer(x), n=63)
     simple('CorrelationAnalyzer', 'odd-length-2ch', lambda x: na.CorrelationAnalyzer(x), n=31, nch=2)
     simple('GrangerAnalyzer', 'odd', lambda x: na.GrangerAnalyzer(x, order=3, n_freqs=15), n=127)
+    # an explicit method['Fs'] that merely EQUALS the first input's sampling rate is still the user's choice
+    simple('CoherenceAnalyzer', 'user-fs-equal', lambda x: na.CoherenceAnalyzer(x, method=dict(this_method='welch', NFFT=32, n_overlap=16, Fs=1.0)))
+    simple('SparseCoherenceAnalyzer', 'user-fs-equal', lambda x: na.SparseCoherenceAnalyzer(x, ij=[(0, 1), (1, 2)], method=dict(this_method='welch', NFFT=32, n_overlap=16, Fs=1.0)))
+    simple('SpectralAnalyzer', 'user-fs-equal', lambda x: na.SpectralAnalyzer(x, method=dict(this_method='welch', NFFT=32, Fs=1.0)), n=64)
     LIGHT.update((c, l) for (c, l, _) in S[n_core:])
     return S
 
